@@ -835,3 +835,84 @@ def check_time_pivots(ctx, f):
                "%s maps yy ≥ 50 to 19yy and yy < 50 to 20yy (the encoder's UTCTime range 1950..=2049)" % short(root_fn(f, b.name)),
                where=b.loc, detail=detail)
     ctx.floor("R-SIB", "UTCTime decoder copies with a year pivot", npiv, 2)
+
+
+# ---------------------------------------------------------------------------
+# α-normalised rendering and dominating branch conditions (shared by C03/C04/…)
+
+def alpha(s, body):
+    """α-normalise a rendered provenance term: local and parameter names do not matter."""
+    s = re.sub(r"\$\w+", "$", s)
+    s = re.sub(r"\b\w+⟵", "⟵", s)
+    s = re.sub(r"\^\w+", "^", s)
+    for i in range(1, body.arg_count + 1):
+        nm = body.local_name(i)
+        if nm and nm != "self":
+            s = re.sub(r"(?<![\w.:])%s(?![\w(:])" % re.escape(nm), "%%%d" % i, s)
+    return s
+
+
+
+_DOM = {}
+
+
+def dominating_guards(f, body, bb):
+    """Branch conditions every path to block `bb` has to pass: ['<discriminant> -> <edge values that can still reach bb>']."""
+    if body.name not in _DOM:
+        _DOM[body.name] = body.dominators()
+    dom = _DOM[body.name]
+    s = sym_of(body)
+    out = []
+    for sb in sorted(dom.get(bb, ())):
+        t = body.term(sb)
+        if t["t"] != "switch" or sb == bb:
+            continue
+        edges = body.switch_edges(sb)
+        ok_vals = []
+        for v, tb in edges:
+            if bb in body.reachable(tb, removed_blocks=[sb]) or tb == bb:
+                ok_vals.append("else" if v is None else str(v))
+        if len(ok_vals) < len(edges):
+            out.append("%s -> %s" % (alpha(render(strip_deep(s.operand(t["discr"])))[:200], body), ",".join(ok_vals)))
+    return out
+
+
+
+
+# ---------------------------------------------------------------------------
+# comparison-only predicates of the interval type (chain::Block)
+
+def check_block_predicates(ctx, f, rule="R-REG"):
+    """The four order predicates of `chain::Block` are decided on every weak ordering of the bounds involved and compared
+    with the interval-arithmetic definition (intervals are inclusive)."""
+    from engine import orderlogic as OL
+    CH = "repository::resources::chain::Block::"
+    M = {"Block::min(self)": "a", "Block::max(self)": "b", "Block::min(%2)": "c", "Block::max(%2)": "d", "%2": "x"}
+
+    def spec(fn, q):
+        fn.quantities = q
+        return fn
+    specs = {
+        "is_encompassed": (spec(lambda e: e["c"] <= e["a"] and e["b"] <= e["d"], ("a", "b", "c", "d")),
+                           "[a,b] ⊆ [c,d] ⇔ c ≤ a ∧ b ≤ d"),
+        "intersects": (spec(lambda e: e["a"] <= e["d"] and e["c"] <= e["b"], ("a", "b", "c", "d")),
+                       "[a,b] ∩ [c,d] ≠ ∅ ⇔ a ≤ d ∧ c ≤ b"),
+        "contains": (spec(lambda e: e["a"] <= e["x"] <= e["b"], ("a", "b", "x")), "x ∈ [a,b] ⇔ a ≤ x ≤ b"),
+        "is_equivalent": (spec(lambda e: e["a"] == e["c"] and e["b"] == e["d"], ("a", "b", "c", "d")), "a = c ∧ b = d"),
+    }
+    n = 0
+    for meth, (sp, text) in specs.items():
+        b = f.body(CH + meth)
+        if b is None:
+            ctx.missing(rule, "Block::%s" % meth, CH + meth)
+            continue
+        n += 1
+        ctx.saw_fn(b.name)
+        ok, det = OL.decide(b, sym_of(b), M, sp, assume=lambda e: e.get("a", 0) <= e.get("b", 0) and e.get("c", 0) <= e.get("d", 0),
+                            norm=lambda q, b=b: alpha(q, b))
+        over = sorted(n2 for n2 in f.bodies if re.search(r" as repository::resources::chain::Block>::%s$" % meth, n2))
+        if over:
+            ok, det = False, {"overridden_by": over, "table": det}
+        ctx.ob(rule, "Block::%s:order-table" % meth, ok,
+               "Block::%s is %s on every weak ordering of the bounds (with a ≤ b, c ≤ d)" % (meth, text), where=b.loc, detail=det)
+    return n
